@@ -43,6 +43,15 @@ VARIANTS = {
         'options.bfg': "argument('name', default='dflt')\nsubmodule('config')\n",
         'config/options.bfg': "argument('subname', default='sub0')\n",
     },
+    'custom-filter': {
+        # one search with a project-defined filter function (cannot be saved in the find cache)
+        # next to an ordinary one
+        'build.bfg': "def only_c(p):\n"
+                     "    return FindResult.include if p.suffix.endswith('.c') else FindResult.exclude\n"
+                     "srcs = find_files('src/*', filter=only_c)\n"
+                     "libs = find_files('lib/*.c')\n"
+                     "executable('prog', srcs + libs)\n",
+    },
     'toolchain-file': {
         'build.bfg': "srcs = find_files('src/*.c')\nexecutable('prog', srcs)\n",
         'tc.bfg': "compile_options(['-DTC=1'], 'c')\nlink_options(['-Wl,-tc'])\n"
@@ -396,7 +405,7 @@ def _explore(arg):
 def run(ctx):
     depth = 3 if ctx.thorough else 2
     variants = list(VARIANTS) if ctx.thorough else ['one-pattern', 'patterns-extra-exclude', 'directories',
-                                                    'submodule-options-pkgconfig', 'toolchain-file']
+                                                    'submodule-options-pkgconfig', 'toolchain-file', 'custom-filter']
     shards = []
     for v in variants:
         for b in ('make', 'ninja'):
